@@ -70,6 +70,9 @@ func GenerateSolo(r *lp.Rng, index int) *Design {
 		}
 		if c.valid {
 			switch {
+			case prim == "String" && c.presence == 1 && c.loc != "path":
+				// a format AND a pattern on one attribute: both have to hold ("1999-12-31" is a date and does not start with 20)
+				a.Val = &Validation{Format: "date", Pattern: "^20"}
 			case prim == "String":
 				a.Val = &Validation{MinLen: ip(1), MaxLen: ip(40)}
 			case prim == "Bytes":
@@ -139,6 +142,21 @@ func GenerateSolo(r *lp.Rng, index int) *Design {
 		}
 		s.Methods = append(s.Methods, m)
 	}
+	// two routes that agree up to a wildcard they name differently, under different verbs: each method gets the rest of the
+	// path under ITS name
+	wild := func(name, verb, v string) *Method {
+		return &Method{Name: name, Payload: &Att{Type: &Type{IsObject: true, Object: []*Field{{Name: v, Att: &Att{Type: &Type{Prim: "String"}}}}}, Required: []string{v}},
+			Result: &Att{Type: &Type{Prim: "String"}}, HTTP: &HTTPMap{Verb: verb, Path: "/wild/{*" + v + "}"}}
+	}
+	s.Methods = append(s.Methods, wild("wild_get", "GET", "path"), wild("wild_put", "PUT", "rest"))
+	// required arrays of a NAMED array type, of an inline array type and an optional one: a service that leaves them nil still
+	// answers with empty lists
+	d.Types = append(d.Types, &TypeDef{Name: "NameList", Kind: "type", Att: &Att{Type: &Type{Array: &Att{Type: &Type{Prim: "String"}}}}})
+	s.Methods = append(s.Methods, &Method{Name: "lists", HTTP: &HTTPMap{Verb: "GET", Path: "/lists"},
+		Result: &Att{Type: &Type{IsObject: true, Object: []*Field{
+			{Name: "names", Att: &Att{Type: &Type{Ref: "NameList"}}},
+			{Name: "items", Att: &Att{Type: &Type{Array: &Att{Type: &Type{Prim: "Int"}}}}},
+			{Name: "plain", Att: &Att{Type: &Type{Array: &Att{Type: &Type{Prim: "String"}}}}}}}, Required: []string{"names", "items"}}})
 	_ = r
 	return d
 }
